@@ -56,6 +56,14 @@ def on_event(R, ev, node):
         return
     if name == "fdopen":
         return
+    if name == "raw-write":
+        # os.write(fd, data) may write FEWER bytes than asked without raising (disk full, quota, RLIMIT_FSIZE, signals): a writer that does not
+        # loop on / check the returned count can install a truncated file.  The discipline admits buffered file objects only (they raise).
+        ctx.add_obligation(R, "trace", "writes-go-through-a-file-object-that-reports-short-writes", z3.BoolVal(False),
+                           clause="os.write on a raw descriptor: a short write goes unnoticed unless the returned count is checked", line=getattr(node, "lineno", None))
+        return
+    if name == "raw-close":
+        return
     if name == "write":  # ljdump(obj, fp)
         h = ev.args[1] if len(ev.args) > 1 else None
         t = st["handles"].get(id(h.z) if h is not None else None)
@@ -148,5 +156,8 @@ EXTERNALS = {
     "os.unlink": Ext(event="unlink", raises=["OSError"]),
     "os.remove": Ext(event="remove", raises=["OSError"]),
     "os.path.dirname": Ext(ret=Str, pure=True, uf="os.path.dirname"),
+    "os.write": Ext(ret=Int, event="raw-write", raises=["OSError"], note="raw descriptor write: may be short"),
+    "os.close": Ext(event="raw-close", raises=["OSError"]),
+    "xlj.dumps": Ext(ret=Str, pure=True, raises=["Exception+"]),
 }
 HOOKS = {"event": on_event, "event_result": on_event_result}
